@@ -161,7 +161,7 @@ func (obj *SparseReal32Vector) APPEND(w *SparseReal32Vector) *SparseReal32Vector
   return r
 }
 func (obj *SparseReal32Vector) ToSparseReal32Matrix(n, m int) *SparseReal32Matrix {
-  if n*m != obj.n {
+  if n < 0 || m < 0 || n*m != obj.n {
     panic("Matrix dimension does not fit input vector!")
   }
   v := NullSparseReal32Vector(obj.n)
